@@ -15,14 +15,17 @@ def cases(rng, tier, focus):
             ff = [None, 0.01, 0.5, 0.9, 1.0][int(rng.integers(0, 5))]
             nk = int(rng.integers(0, 3)); nsel = [None, int(rng.integers(1, n + 1)), float(rng.uniform(1.0 / n, 1.0))][nk]
             if isinstance(nsel, float) and int(n * nsel) < 1: nsel = 1.0
-            yield dict(X=X, dkind=dkind, ff=ff, nsel=nsel, init=int(rng.integers(0, n)), ntrial=int(rng.integers(1, 4)))
+            # a configured score threshold that is never reached must change nothing (absolute: below every positive distance; relative: a tiny ratio)
+            thr = [None, None, ('absolute', 1e-30), ('relative', 1e-25)][rep % 4]
+            yield dict(X=X, dkind=dkind, ff=ff, nsel=nsel, init=int(rng.integers(0, n)), ntrial=int(rng.integers(1, 4)), thr=thr)
 
-def nontrivial(c): return (c['dkind'], c['X'].shape, c['ff'], c['init'], type(c['nsel']).__name__)
+def nontrivial(c): return (c['dkind'], c['X'].shape, c['ff'], c['init'], type(c['nsel']).__name__, (c.get('thr') or (None,))[0])
 
 def check(c):
     X = c['X']; fam = ('VoronoiFPS', 'sample'); n = len(X)
     kw = dict(initialize=c['init'], n_to_select=c['nsel'], n_trial_calculation=c['ntrial'])
     if c['ff'] is not None: kw['full_fraction'] = c['ff']
+    if c.get('thr'): kw['score_threshold_type'], kw['score_threshold'] = c['thr']
     v = S.make(fam, kw)
     D = S.dist_matrix(('FPS', 'sample'), X); scale = max(1.0, float(D.max())); tol = 1e-9 * scale
     # per-step contract (wrapper on the instance): the table equals the true minimum distance after every update
@@ -39,6 +42,7 @@ def check(c):
     try: S.fit(v, fam, X, None)
     except ValueError: return []
     expect(steps[0] >= 1, 'harness:wrapper-evaluated')
+    if c.get('thr') and v.n_selected_ != len(np.asarray(v.selected_idx_)): return []      # the threshold was reached after all (duplicates: distance 0): recorded finding of C01, not this contract
     f = S.make(('FPS', 'sample'), dict(initialize=c['init'], n_to_select=c['nsel'])); S.fit(f, ('FPS', 'sample'), X, None)
     i1, i2 = np.asarray(v.selected_idx_), np.asarray(f.selected_idx_)
     expect(len(i1) == len(i2), 'post[C06]:same-number-of-selections-as-plain-FPS', f"{len(i1)} vs {len(i2)}")
